@@ -435,3 +435,28 @@ package arvados
 //@   calls inode.Child#1: set exerr = $r1
 //@   calls inode.Child#2: requires exerr == nil && ex == nil && $0 == name
 //@   ensures exerr == nil && ex != nil ==> result == os.ErrExist
+
+// marshalManifest, the stream line of one directory: `blocks` lists each
+// stored block once per run of consecutive segments that use it, streamLen is
+// the total size of the listed blocks, and a file segment's position in the
+// stream is the start of its block (the last one listed) plus its offset in
+// that block, with its own length; the files are flushed synchronously first
+// and a flush error is returned before any token is produced.
+//@ func dirnode.flush trusted
+//@   modifies all
+//@ func manifestEscape trusted pure
+//@   modifies nothing
+//@ func dirnode.marshalManifest$2 property C09 safety -bounds,-nil,-nopanic
+//@   ghost tot int64 = 0
+//@   ghost nb int = 0
+//@   ghost ferr error = nil
+//@   calls dirnode.flush#1: requires $1 == filenames && $2.sync && $2.shortBlocks
+//@   calls dirnode.flush#1: set ferr = $r
+//@   at assign .length#1: assert streamLen == tot - ite(len(blocks) == nb, int64(seg.size), 0)
+//@   at assign .length#1: assert len(blocks) > 0 && blocks[len(blocks)-1] == seg.locator
+//@   at assign .length#1: assert next.offset == streamLen + int64(seg.offset) && next.length == int64(seg.length) && next.name == name
+//@   at assign .length#1: set tot = streamLen + int64(seg.size)
+//@   at assign .length#1: set nb = len(blocks)
+//@   loop 1: invariant streamLen == tot && nb == len(blocks) && ferr == nil
+//@   loop 2: invariant streamLen == tot && nb == len(blocks) && ferr == nil
+//@   ensures ferr != nil ==> result == ferr
